@@ -418,6 +418,9 @@ def step (x : Sess) (toks : List String) : Step :=
     let b := fun (v : Bool) => if v then 1 else 0
     let isMap := o.file || o.anon
     simple x s!"r=ok val={b c.unify},{b c.ro},{b isMap},{b o.file},{b (!o.file)},{b o.anon},{b o.file},{b o.file},{o.magic},0,4096,{c.reserved},{c.dataOffset}"
+  | ["rres"] =>
+    let sum := (List.range c.reserved).foldl (fun acc i => (acc + (i + 1) * x.st.mem.rd i) % 4294967296) 0
+    simple x s!"r=ok val={c.reserved},{sum}"
   | ["wres", b] =>
     match b.toNat? with
     | some b =>
@@ -453,6 +456,25 @@ def step (x : Sess) (toks : List String) : Step :=
         | .error e => simple x s!"r={bufErrStr e} len={hd.len} oo=1"
         | .ok (n, hd') => simple (x.put id hd') s!"r=ok n={n} len={hd'.len} oo=1"
       | _, _ => { sess := some x, out := "bad-op" }
+  | ["put_varu", h, ty, v] =>
+    -- the panicking twin of `put_var`: same encoder, failure is a panic
+    withBuf h fun id hd =>
+      match parseTy ty, v.toInt? with
+      | some t, some v =>
+        let (mem, r) := bufPutVarint x.st.mem hd t v
+        let x := { x with st := { x.st with mem := mem } }
+        match r with
+        | .error _ => simple x s!"r=panic len={hd.len}"
+        | .ok (n, hd') => simple (x.put id hd') s!"r=ok n={n} len={hd'.len} oo=1"
+      | _, _ => { sess := some x, out := "bad-op" }
+  | ["get_varu", h, ty] =>
+    withBuf h fun _ hd =>
+      match parseTy ty with
+      | some t =>
+        match bufGetVarint x.st.mem hd t with
+        | .error _ => simple x s!"r=panic len={hd.len}"
+        | .ok (n, v) => simple x s!"r=ok n={n} val={v} len={hd.len} oo=1"
+      | none => { sess := some x, out := "bad-op" }
   | ["get_var", h, ty] =>
     withBuf h fun _ hd =>
       match parseTy ty with
@@ -488,7 +510,7 @@ def step (x : Sess) (toks : List String) : Step :=
           | .ok (.ok (po, hd')) =>
             -- the pointer of an empty owned buffer is `NonNull::dangling()`, not an arena address
             let pos := match po with | some p => (if hd.null && hd.owned then "dangling" else toString p) | none => "dangling"
-            simple (x.put id hd') s!"r=ok po={pos} len={hd'.len} oo=1"
+            simple (x.put id hd') s!"r=ok po={pos} pa=0 len={hd'.len} oo=1"
       | _, _ => { sess := some x, out := "bad-op" }
   | ["put_aligned", h, a, s, b] =>
     withBuf h fun id hd =>
@@ -500,7 +522,7 @@ def step (x : Sess) (toks : List String) : Step :=
           | .ok (.error e) => simple x s!"r={bufErrStr e} len={hd.len} oo=1"
           | .ok (.ok (po, mem, hd')) =>
             let pos := match po with | some p => (if hd.null && hd.owned then "dangling" else toString p) | none => "dangling"
-            simple ({ x with st := { x.st with mem := mem } }.put id hd') s!"r=ok po={pos} len={hd'.len} oo=1"
+            simple ({ x with st := { x.st with mem := mem } }.put id hd') s!"r=ok po={pos} pa=0 len={hd'.len} oo=1"
       | _, _, _ => { sess := some x, out := "bad-op" }
   | ["putT", h, _a, s, b] =>
     withBuf h fun id hd =>
